@@ -308,15 +308,17 @@ def _check_directory_structure_validity(paths):
         If a path is repeated as both a leaf and a node in the directory structure.
 
     """
+    paths = list(paths)
     check = set()
+    for dst in paths:
+        tokens = dst.split(os.path.sep)
+        for i in range(1, len(tokens)):
+            check.add(os.path.sep.join(tokens[:i]))
     for dst in paths:
         if dst in check:
             raise RuntimeError(
                 f"The path '{dst}' is both a leaf and node in the path structure."
             )
-        tokens = dst.split(os.path.sep)
-        for i in range(1, len(tokens)):
-            check.add(os.path.sep.join(tokens[:i]))
 
 
 def _export_jobs(jobs, path, copytree):
